@@ -352,9 +352,15 @@ def make_scripted_local_backend(chooser, spec, n_workers, profile=None, delete_c
                     fp.returncode = -15
 
         def _schedule(self, trial_id, config):
-            os.makedirs(self.trial_path(trial_id), exist_ok=True)
-            open(self.trial_path(trial_id) / "std.out", "a").close()
-            open(self.trial_path(trial_id) / "std.err", "a").close()
+            # the real LocalBackend._schedule (directory handling, log files, config.json, command line) with only the
+            # process creation replaced: whatever it does to the trial directory is seen by the scripted job below
+            import subprocess as _sp
+            orig_popen = _sp.Popen
+            _sp.Popen = lambda *a, **kw: _FakeProcess()
+            try:
+                LocalBackend._schedule(self, trial_id, config)
+            finally:
+                _sp.Popen = orig_popen
             # the checkpoint *file* decides where the job continues
             if self._ckpt_file(trial_id).exists():
                 self.sim.ckpt[trial_id] = int(json.load(open(self._ckpt_file(trial_id)))["level"])
@@ -368,8 +374,6 @@ def make_scripted_local_backend(chooser, spec, n_workers, profile=None, delete_c
             stub.creation_time = env.DT0
             self.sim._trial_dict[trial_id] = stub
             self.sim._schedule(trial_id, config)
-            self.trial_subprocess[trial_id] = _FakeProcess()
-            self._busy_trial_id_candidates.add(trial_id)
 
         def _all_trial_results(self, trial_ids):
             if not self._in_stop_all:
